@@ -28,3 +28,71 @@ Definition graph_cc (n : nat) (E : list edge) : list (nat * nat) :=
 Definition refines (P Q : list nat) : bool :=
   forallb (fun i => forallb (fun j => implb (Nat.eqb (nth i P 0) (nth j P 0)) (Nat.eqb (nth i Q 0) (nth j Q 0)))
                             (seq 0 (length P))) (seq 0 (length P)).
+
+(* ---------- naive agglomerative single-linkage clustering over a distance function on n points ---------- *)
+(* first element with the smallest key (ties: the earliest) *)
+Fixpoint argmin {X : Type} (f : X -> nat) (l : list X) : option X :=
+  match l with
+  | [] => None
+  | x :: l' => match argmin f l' with
+               | None => Some x
+               | Some y => if Nat.ltb (f y) (f x) then Some y else Some x
+               end
+  end.
+(* every way of taking one element out of a list: (element, the others) *)
+Fixpoint picks {X : Type} (l : list X) : list (X * list X) :=
+  match l with
+  | [] => []
+  | x :: l' => (x, l') :: map (fun yr => (fst yr, x :: snd yr)) (picks l')
+  end.
+(* every ordered way of taking two elements out: (first, second, the others) *)
+Definition pairs2 {X : Type} (l : list X) : list (X * X * list X) :=
+  flat_map (fun xr => map (fun ys => (fst xr, fst ys, snd ys)) (picks (snd xr))) (picks l).
+
+(* single-linkage distance of two clusters: the minimum point distance (0 only for an empty cluster, which never occurs) *)
+Definition cdist (D : nat -> nat -> nat) (A B : list nat) : nat :=
+  match argmin (fun p => D (fst p) (snd p)) (list_prod A B) with
+  | Some p => D (fst p) (snd p)
+  | None => 0
+  end.
+Definition sl_key (D : nat -> nat -> nat) (abr : list nat * list nat * list (list nat)) : nat :=
+  cdist D (fst (fst abr)) (snd (fst abr)).
+(* one agglomeration step: merge the two clusters at minimum inter-cluster minimum distance;
+   returns (members of the new cluster, height, new list of clusters) *)
+Definition sl_step (D : nat -> nat -> nat) (cl : list (list nat)) : option (list nat * nat * list (list nat)) :=
+  match argmin (sl_key D) (pairs2 cl) with
+  | None => None
+  | Some abr => let A := fst (fst abr) in let B := snd (fst abr) in
+                Some (A ++ B, cdist D A B, (A ++ B) :: snd abr)
+  end.
+(* the dendrogram as the list of merges (members, height), in merge order *)
+Fixpoint sl_run (fuel : nat) (D : nat -> nat -> nat) (cl : list (list nat)) : list (list nat * nat) :=
+  match fuel with
+  | 0 => []
+  | S f => match sl_step D cl with
+           | None => []
+           | Some mhc => (fst mhc) :: sl_run f D (snd mhc)
+           end
+  end.
+Definition singletons (n : nat) : list (list nat) := map (fun i => [i]) (seq 0 n).
+Definition single_linkage (n : nat) (D : nat -> nat -> nat) : list (list nat * nat) := sl_run n D (singletons n).
+
+(* fcluster(criterion='distance', t): join everything merged at height <= t *)
+Definition star (M : list nat) : list edge :=
+  match M with [] => [] | a :: l => map (fun b => (a, b)) l end.
+Definition cut_edges (t : nat) (dendro : list (list nat * nat)) : list edge :=
+  flat_map (fun mh => if Nat.leb (snd mh) t then star (fst mh) else []) dendro.
+Definition sl_cut (n : nat) (D : nat -> nat -> nat) (t : nat) : list nat :=
+  components n (cut_edges t (single_linkage n D)).
+
+(* the graph on 0..n-1 with an edge for every pair of distinct points at distance <= t *)
+Definition threshold_graph (n : nat) (D : nat -> nat -> nat) (t : nat) : list edge :=
+  filter (fun ij => negb (Nat.eqb (fst ij) (snd ij)) && Nat.leb (D (fst ij) (snd ij)) t)
+         (list_prod (seq 0 n) (seq 0 n)).
+(* a distance function read from a square matrix *)
+Definition mat_dist (M : list (list nat)) (i j : nat) : nat := nth j (nth i M []) 0.
+
+(* the Levenshtein distance matrix of a sequence list (what Levenshtein().calc_cdist_matrix(seqs, seqs) holds) *)
+From Coq Require Import NArith.
+From PV Require Import lib.Str lib.Condensed.
+Definition lev_matrix (seqs : list str) : list (list nat) := cdist_loop slev_x seqs seqs.
